@@ -65,3 +65,8 @@ def run(tier):
     v.assumptions = ["arena exhaustion of the harness configuration (memory allocation failed) is a resource limit, not counted",
                      "process handles as operand types are exercised by C15/C16's scripts, not by this table"]
     return v.finish()
+
+
+def replay(path):
+    import replaytool
+    return replaytool.replay("C06", path)
